@@ -195,3 +195,23 @@ def selectsR (sch : Schema) (db : DB) (tbl : Str) (r : Row) (f : RCond) : Option
   (evalR sch db tbl r f).map (· == .tt)
 
 end OQ.Spec
+
+namespace OQ.Spec
+/-- every lambda body of the filter is two-valued on every related row it is evaluated on (the property quantifies over
+    lambda bodies over NON-NULL child columns; with an unknown body the SQL `EXISTS` reading and the logical reading of
+    `all` differ) -/
+def lambdaClean (sch : Schema) (db : DB) : Str → Row → RCond → Bool
+  | _, _, .scalar _ => true
+  | tbl, r, .and x y => lambdaClean sch db tbl r x && lambdaClean sch db tbl r y
+  | tbl, r, .or x y => lambdaClean sch db tbl r x && lambdaClean sch db tbl r y
+  | tbl, r, .not x => lambdaClean sch db tbl r x
+  | _, _, .nonEmpty _ _ => true
+  | tbl, r, .any path coll body =>
+      (match collRows sch db tbl r path coll with
+       | some (t, rows) => rows.all (fun c => lambdaClean sch db t c body && evalR sch db t c body != some .unk)
+       | none => true)
+  | tbl, r, .all path coll body =>
+      (match collRows sch db tbl r path coll with
+       | some (t, rows) => rows.all (fun c => lambdaClean sch db t c body && evalR sch db t c body != some .unk)
+       | none => true)
+end OQ.Spec
